@@ -1,6 +1,64 @@
-(** C01 — provisional statement file (whole-type theorems are being added). *)
-From Asn1V Require Import Base.Prelude Base.Bits Base.BitsProofs Syntax.Asn1 Per.UperImpl Per.UperPrim.
+(** C01 — binary codecs round-trip every value of every compilable type.
+    Statements only.  UPER is proved here for the whole modelled universe; the
+    theorems of the other codecs are added as their models are delivered
+    (the cross-codec property test runs on /repo for all of them). *)
+From Asn1V Require Import Base.Prelude Base.Bits Syntax.Asn1 Per.UperImpl Per.UperPrim Per.UperPB Per.UperRT.
 
-Theorem C01_length_determinant_prefix_behaviour : PB read_len.
-Proof. exact PB_read_len. Qed.
-Print Assumptions C01_length_determinant_prefix_behaviour.
+(** UPER, bit level: for every type environment, every type (BOOLEAN, INTEGER
+    in all constraint forms incl. extensible, ENUMERATED with additions, NULL,
+    BIT STRING with named bits, OCTET STRING, known-multiplier strings with
+    permitted alphabets, UTF8String, OBJECT IDENTIFIER, SEQUENCE/SET with
+    OPTIONAL/DEFAULT, extension additions and addition groups, SEQUENCE OF with
+    16K fragmentation, CHOICE with additions, references and recursion), every
+    value the encoder accepts, and every continuation of the input: decoding
+    the encoding yields [norm v] — the same abstract value, DEFAULTs filled
+    in, named-bit strings modulo trailing zero bits — and leaves the
+    continuation untouched. *)
+Theorem C01_uper_roundtrip_bits :
+  forall numeric e fuel t v bs,
+    enc numeric e fuel t v = Ok bs ->
+    forall rest, dec numeric e fuel t (bs ++ rest) = Ok (norm numeric e fuel t v, rest).
+Proof. exact enc_dec_rt. Qed.
+Print Assumptions C01_uper_roundtrip_bits.
+
+(** UPER, octet level (what Specification.encode / decode exchange), with any
+    trailing octets: the value comes back and the decoder stops inside the
+    last octet of the encoding. *)
+Theorem C01_uper_roundtrip :
+  forall numeric fuel e t v data,
+    uper_encode numeric fuel e t v = Ok data ->
+    forall tail, exists n,
+      uper_decode numeric fuel e t (data ++ tail) = Ok (norm numeric e fuel t v, n) /\
+      (n <= 8 * length data)%nat /\ (8 * length data < n + 8)%nat.
+Proof. exact uper_roundtrip. Qed.
+Print Assumptions C01_uper_roundtrip.
+
+(* OPEN: C01_uper_reencode : enc (norm v) = enc v (byte-identical re-encoding of the decoded
+   value) is not proved yet; it is exercised by the property test on /repo. *)
+
+Local Open Scope string_scope.
+Definition ex_env : env :=
+  [("R", TSeq false [("v", TInt (IcRange (Some 0) (Some 255) false), Mandatory);
+                     ("next", TRef "R", Optional)] None)].
+Definition ex_ty : ty :=
+  TSeq false
+       [("a", TChoice [("i", TInt IcNone, Mandatory); ("s", TStr SkIA5 (SzRange 1 (Some 4) false) None, Mandatory)]
+                      (Some [("r", TRef "R", Mandatory)]), Mandatory);
+        ("b", TBits (Some [("x", 0); ("y", 3)]) SzNone, Default (VBits [128] 1));
+        ("c", TEnum [("e0", 5); ("e1", 1)] (Some [("e2", 9)]), Optional)]
+       (Some [(true, [("g", TBool, Mandatory); ("h", TOctets (SzRange 0 (Some 3) true), Optional)])]).
+Definition ex_val : value :=
+  VSeq [("a", VChoice "r" (VSeq [("v", VInt 7); ("next", VSeq [("v", VInt 200)])]));
+        ("b", VBits [144; 0] 9); ("c", VEnum "e2"); ("g", VBool true); ("h", VBytes [1; 2; 3; 4; 5])].
+
+(** Non-vacuity: a nested extensible value (CHOICE addition holding a
+    recursive type, named-bit string with trailing zeros, ENUMERATED addition,
+    an addition group with an out-of-root OCTET STRING) is encodable, and its
+    normal form differs from it only in the stripped named-bit string. *)
+Example C01_hypotheses_inhabited :
+  exists data, uper_encode false 12 ex_env ex_ty ex_val = Ok data /\ (10 < length data)%nat /\
+    norm false ex_env 12 ex_ty ex_val =
+    VSeq [("a", VChoice "r" (VSeq [("v", VInt 7); ("next", VSeq [("v", VInt 200)])]));
+          ("b", VBits [144] 4); ("c", VEnum "e2"); ("g", VBool true); ("h", VBytes [1; 2; 3; 4; 5])].
+Proof. eexists. split; [vm_compute; reflexivity|]. split; [vm_compute; lia | vm_compute; reflexivity]. Qed.
+Print Assumptions C01_hypotheses_inhabited.
